@@ -434,7 +434,7 @@ class Terms:
                 elt = ("tuple", (self._t(cfg, nid, e.key, env2, depth, guard), self._t(cfg, nid, e.value, env2, depth, guard)))
             else:
                 elt = self._t(cfg, nid, e.elt, env2, depth, guard)
-            return ("comp", type(e).__name__, elt, tuple(gens))
+            return _fuse_comp(("comp", type(e).__name__, elt, tuple(gens)))
         if isinstance(e, ast.Lambda):
             env2 = dict(env)
             params = [a.arg for a in e.args.posonlyargs + e.args.args + e.args.kwonlyargs]
@@ -653,6 +653,48 @@ def _binop(op, l, r) -> tuple:
         except Exception:
             pass
     return ("binop", name, l, r)
+
+
+def _fuse_comp(t):
+    """A comprehension over an unfiltered comprehension / generator expression is one comprehension: the outer target is
+    bound to the inner element (`[f(c, v) for c, v in ((g(k), v) for k, v in d.items())]` = `[f(g(k), v) for k, v in d.items()]`)."""
+    if len(t[3]) != 1:
+        return t
+    tgt, it, conds = t[3][0]
+    if not (it[0] == "comp" and it[1] in ("ListComp", "GeneratorExp") and len(it[3]) == 1 and not it[3][0][2]):
+        return t
+    m: dict = {}
+    if not _bind_target(tgt, it[2], m):
+        return t
+    outer_names = {s_[1] for s_ in _walk_tuples(tgt) if len(s_) == 2 and s_[0] == "cvar"}
+    if outer_names - set(m):
+        return t
+    return ("comp", t[1], _subst_cvars(t[2], m), ((it[3][0][0], it[3][0][1], tuple(_subst_cvars(c, m) for c in conds)),))
+
+
+def _walk_tuples(t):
+    if isinstance(t, tuple):
+        yield t
+        for x in t:
+            yield from _walk_tuples(x)
+
+
+def comp_as_loop(t):
+    """single-generator comprehension -> (element, conditions, iterable) with the loop variable written the way a `for`
+    statement's is: ('iter', iterable), its unpacked parts ('sub', ('iter', iterable), i).  None for other terms."""
+    if not (t[0] == "comp" and len(t[3]) == 1):
+        return None
+    tgt, it, conds = t[3][0]
+    item = ("iter", it)
+    m: dict = {}
+    if tgt[0] == "cvar":
+        m[tgt[1]] = item
+    elif tgt[0] in ("tuple", "list") and all(x[0] == "cvar" for x in tgt[1]):
+        for i, x in enumerate(tgt[1]):
+            m[x[1]] = ("sub", item, ("const", i))
+    else:
+        return None
+    return _subst_cvars(t[2], m), tuple(_subst_cvars(c, m) for c in conds), it
 
 
 def _format_term(tmpl, args, kwargs):
